@@ -274,6 +274,29 @@ PROPS = {
                         'lookup:ties', 'nearest:hit', 'nearest:miss', 'by-time:hit', 'cert-by-id:hit', 'cert-by-id:miss', 'rule-violated:element-after-signature', 'rule-violated:section-out-of-order'],
   'assumptions': ['certificate validity periods are not varied', 'only the generated inputs are covered'],
  },
+ 'C04': {
+  'technique': 'model-based property testing (rapidcheck) over a reference world: reference aggregator and coherent simulated calendar, reactive reference extender behind the simulated transports, publications files and authentication records signed with a test PKI',
+  'level_text': 'For every generated case a consistent signature (no calendar / calendar / publication record / authentication record with a real PKI signature) is verified under one of the five '
+                'anchored policies with generated anchors: user publication (absent, not after the aggregation time, between, equal to the signature\'s, later; hash genuine / wrong / crafted to follow a deviated '
+                'extender reply), publications file (absent, supplied, downloaded and PKI-verified, downloaded but signed by an unanchored signer, HTTP error, garbage; records in the same time categories; '
+                'certificate listed / missing / other id; validity window covering, ending before, starting after, touching the aggregation time, or starting between aggregation and publication time), extending allowed or not, '
+                'and an extender that answers correctly or with another root, altered right link, other input hash, other aggregation or publication time (coherent or label only), error status (with or without a chain), '
+                'error PDU, bad HMAC, connection reset, no chain or a wrong request id. The expectation (bound / contradiction with the documented codes / inconclusive) is derived from the construction and from the '
+                'chain the extender actually sent, using the reference chain arithmetic. Asserted: contradiction => FAIL with one of the documented codes; nothing binds => neither OK nor FAIL; internally '
+                'inconsistent signature (13 mutation kinds) => never OK. Bound cases are counted (reported OK or not) but not asserted, as the property is one-directional there.',
+  'level_note': 'Trusted: ref/chain.cpp, ref/sigmodel.cpp, ref/pdu.cpp, OpenSSL for the test PKI, the expectation functions in harness/C04.cpp. Hash-algorithm deprecation (SHA-1 links) is not varied here (C07/C01 cover it). '
+                'An extension towards a publication in the aggregation second itself is not asserted (a chain without links is not representable).',
+  'rule': 'inputs: (policy, signature kind, optional internal mutation, user publication category x hash mode, file source and records, certificate mode and validity window, authentication-signature mode, '
+          'extending flag, extender behaviour, PDU version, transport). Every case is non-trivial; distinct = distinct descriptor (all of the above plus the derived expectation).',
+  'quick': {'cases': 32000, 'max_size': 300, 'exhaustive': False, 'wall_s': 900},
+  'thorough': {'cases': 600000, 'max_size': 400, 'exhaustive': False, 'wall_s': 3400},
+  'sim': ['simsock', 'fakecurl', 'simclock'],
+  'essential_classes': ['policy:user-publication', 'policy:publications-file', 'policy:key', 'policy:calendar', 'policy:general', 'bound:reported-OK', 'observed:OK', 'observed:FAIL', 'observed:NA',
+                        'expect:FAIL:extension-contradicts', 'expect:FAIL:calendar-contradicts', 'expect:FAIL:same-time-other-hash', 'expect:FAIL:file-has-other-hash-for-that-time', 'expect:FAIL:certificate-not-valid-at-aggregation-time,',
+                        'expect:FAIL:pki-signature-invalid,', 'expect:inconclusive:extension-failed', 'expect:inconclusive:extending-forbidden', 'expect:inconclusive:publications-file-unavailable',
+                        'expect:inconclusive:certificate-not-listed', 'expect:never-ok(internal)', 'extender-contacted', 'publications-file-downloaded', 'extender:error-status-with-chain'],
+  'assumptions': ['the extender is reached only through the simulated transports', 'only the generated inputs are covered'],
+ },
 }
 
 # properties without a check, with the reason (kept current)
